@@ -12,7 +12,8 @@ import (
 // Trees enumerates the bounded universe: names {a,b}, depth <= 2, file
 // contents {c1,c2}: a level-2 node is absent, file c1, file c2 or an empty
 // collection; a level-1 node is absent, file c1, file c2 or a collection with
-// any of the 16 member combinations: 19 x 19 = 361 trees.
+// any of the 16 member combinations: 19 x 19 = 361 trees; plus 24 trees of a
+// second family that reaches depth 3-4 along /a/b/a.
 func Trees() []davtree.Tree {
 	type opt func(t davtree.Tree, p string)
 	var l1 []opt
@@ -42,6 +43,34 @@ func Trees() []davtree.Tree {
 			oa(t, "/a")
 			ob(t, "/b")
 			trees = append(trees, t)
+		}
+	}
+	// A second family reaches depth 3 (the probe path /a/b/a exists as a file
+	// or collection), so that deep recursion of COPY/MOVE/DELETE/PROPFIND and
+	// COPY Depth 0 of a nested collection are enumerated too.
+	for _, b := range []func(davtree.Tree){
+		func(t davtree.Tree) {},
+		func(t davtree.Tree) { t["/b"] = davtree.Node{Data: "c1"} },
+		func(t davtree.Tree) { t["/b"] = davtree.Node{Dir: true} },
+	} {
+		for _, aa := range []int{0, 1} { // /a/a absent or file
+			for _, aba := range []int{0, 1, 2, 3} { // /a/b/a absent, file, empty collection, collection with a member
+				t := davtree.Tree{"/a": {Dir: true}, "/a/b": {Dir: true}}
+				if aa == 1 {
+					t["/a/a"] = davtree.Node{Data: "c2"}
+				}
+				switch aba {
+				case 1:
+					t["/a/b/a"] = davtree.Node{Data: "c1"}
+				case 2:
+					t["/a/b/a"] = davtree.Node{Dir: true}
+				case 3:
+					t["/a/b/a"] = davtree.Node{Dir: true}
+					t["/a/b/a/leaf"] = davtree.Node{Data: "c2"}
+				}
+				b(t)
+				trees = append(trees, t)
+			}
 		}
 	}
 	return trees
